@@ -61,6 +61,9 @@ type Step struct {
 	Callee *Term       // dynamic callee term / fn term / builtin
 	Method *types.Func // invoke: interface method
 	Static *ssa.Function
+	// InstArgs: type arguments of the (static or function-valued) callee as called, expressed in the types of the
+	// analysed root function
+	InstArgs []types.Type
 
 	// select
 	Arms     []SelArm
@@ -1580,7 +1583,19 @@ func (ex *explorer) doCall(st *State, in ssa.Instruction, c *ssa.CallCommon, val
 		return true
 	}
 	r := &Term{Op: "call", Aux: site + f.id, Args: append([]*Term{calleeT}, args...)}
-	ex.emit(st, Step{Kind: KCall, Instr: in, Callee: calleeT, Static: fn, A: args, R: r})
+	var instArgs []types.Type
+	{
+		inst := c.StaticCallee()
+		if inst == nil && calleeT != nil && (calleeT.Op == "fn" || calleeT.Op == "closure") {
+			inst = calleeT.Fn
+		}
+		if inst != nil {
+			for _, ta := range inst.TypeArgs() {
+				instArgs = append(instArgs, f.ty(ta))
+			}
+		}
+	}
+	ex.emit(st, Step{Kind: KCall, Instr: in, Callee: calleeT, Static: fn, A: args, R: r, InstArgs: instArgs})
 	bind(r)
 	ex.havocArgs(st, args, site)
 	return false
